@@ -31,8 +31,9 @@ thread_local! {
     static BIGGEST: Cell<usize> = const { Cell::new(0) };
     /// biggest request with alignment 1 (byte buffers) since `begin()`
     static BIGGEST_BYTES: Cell<usize> = const { Cell::new(0) };
-    /// poison byte for non-zeroed allocations; 0 = off
-    static POISON: Cell<u8> = const { Cell::new(0) };
+    /// poison pattern (a little-endian 32-bit word repeated from the start of the block) for non-zeroed allocations;
+    /// 0 = off, u64::MAX = not set on this thread (the process default applies)
+    static POISON: Cell<u64> = const { Cell::new(u64::MAX) };
     /// a single request above this size fails (returns null) => the runtime aborts or panics
     static REQ_CAP: Cell<usize> = const { Cell::new(usize::MAX) };
     static CAP_HIT: Cell<bool> = const { Cell::new(false) };
@@ -234,9 +235,9 @@ unsafe impl GlobalAlloc for VerifAlloc {
             let (p, _) = guard_alloc(layout);
             if !p.is_null() {
                 on_alloc(layout.size());
-                let poison = POISON.try_with(|c| c.get()).unwrap_or(0);
+                let poison = poison_word();
                 if poison != 0 {
-                    std::ptr::write_bytes(p, poison, layout.size());
+                    poison_fill(p, layout.size(), poison);
                 }
             }
             return p;
@@ -244,9 +245,9 @@ unsafe impl GlobalAlloc for VerifAlloc {
         let p = System.alloc(layout);
         if !p.is_null() {
             on_alloc(layout.size());
-            let poison = POISON.try_with(|c| c.get()).unwrap_or(0);
+            let poison = poison_word();
             if poison != 0 {
-                std::ptr::write_bytes(p, poison, layout.size());
+                poison_fill(p, layout.size(), poison);
             }
         }
         p
@@ -303,9 +304,9 @@ unsafe impl GlobalAlloc for VerifAlloc {
         if !p.is_null() {
             on_free(layout.size());
             on_alloc(new_size);
-            let poison = POISON.try_with(|c| c.get()).unwrap_or(0);
+            let poison = poison_word();
             if poison != 0 && new_size > layout.size() {
-                std::ptr::write_bytes(p.add(layout.size()), poison, new_size - layout.size());
+                poison_fill(p.add(layout.size()), new_size - layout.size(), poison);
             }
         }
         p
@@ -341,8 +342,52 @@ pub fn biggest_request() -> usize {
     BIGGEST.with(|b| b.get())
 }
 
+/// Poison byte of this thread (0 = off); overrides the process default.
 pub fn set_poison(b: u8) {
-    POISON.with(|c| c.set(b));
+    POISON.with(|c| c.set(u32::from_le_bytes([b; 4]) as u64));
+}
+
+/// Poison word of this thread: every non-zeroed block is filled with this 32-bit little-endian word (0 = off). Small
+/// words (5, 0x100) look like plausible positions / counters / lengths to code that forgets to initialise a table,
+/// which byte patterns such as A5A5A5A5 (a huge or negative number) often do not.
+pub fn set_poison_word(w: u32) {
+    POISON.with(|c| c.set(w as u64));
+}
+
+/// Back to the process default on this thread.
+pub fn unset_poison() {
+    POISON.with(|c| c.set(u64::MAX));
+}
+
+/// Process-wide default poison byte for threads that never called `set_poison` (0 = off). With a poison pattern every
+/// block that the code under test did not ask to be zeroed starts with the same contents in every run, so that code
+/// which reads memory before writing it behaves the same in the first run and in a replay.
+pub fn set_default_poison(b: u8) {
+    DEFAULT_POISON.store(u32::from_le_bytes([b; 4]), std::sync::atomic::Ordering::Relaxed);
+}
+
+static DEFAULT_POISON: std::sync::atomic::AtomicU32 = std::sync::atomic::AtomicU32::new(0);
+
+#[inline]
+fn poison_word() -> u32 {
+    let v = POISON.try_with(|c| c.get()).unwrap_or(u64::MAX);
+    if v == u64::MAX {
+        DEFAULT_POISON.load(std::sync::atomic::Ordering::Relaxed)
+    } else {
+        v as u32
+    }
+}
+
+#[inline]
+unsafe fn poison_fill(p: *mut u8, len: usize, w: u32) {
+    let b = w.to_le_bytes();
+    if b[0] == b[1] && b[1] == b[2] && b[2] == b[3] {
+        std::ptr::write_bytes(p, b[0], len);
+    } else {
+        for i in 0..len {
+            *p.add(i) = b[i & 3];
+        }
+    }
 }
 
 /// Fail every single request larger than `cap` bytes on this thread.
